@@ -144,11 +144,13 @@ pub proof fn lemma_count_terms_one(s: Seq<u8>, t: u8, i: int)
     assert(count_terms(s, t, i, i) == 0);
 }
 
-/// strip(line, lt): `line` without a trailing terminator (exactly `lt`'s byte sequence)
+/// strip(line, lt): `line` with its terminator removed (C01: "the line's content with its terminator
+/// removed").  A line ends at the terminator BYTE (`\n` for CRLF); with CRLF the `\r` before it is optional and
+/// belongs to the terminator when present.
 pub open spec fn strip(line: Seq<u8>, lt: LineTerminator) -> Seq<u8> {
-    let t = lt.seq_view();
-    if line.len() >= t.len() && line.subrange(line.len() - t.len(), line.len() as int) == t {
-        line.subrange(0, line.len() - t.len())
+    if line.len() > 0 && line[line.len() - 1] == lt.byte_view() {
+        let l1 = line.subrange(0, line.len() - 1);
+        if lt.crlf_view() && l1.len() > 0 && l1[l1.len() - 1] == 13u8 { l1.subrange(0, l1.len() - 1) } else { l1 }
     } else {
         line
     }
